@@ -134,6 +134,16 @@ package transport
 // C09: over GET only query operations are dispatched, and it is the operation selected by the executor
 // (op == opCtx.Operation) that is checked. C03: gate. C10: no own-code panic.
 //@ func (GET).Do [C09,C03,C10,C05]
+// C09 "every transport executes exactly the operation the request names": the parameters handed to the executor carry
+// the `query` and `operationName` of the URL (each under its own name)
+//@   ghost q = ""
+//@   ghost opn = ""
+//@   at! `query.Get("query")` ghost q = callres0
+//@   at! `query.Get("operationName")` ghost opn = callres0
+//@   at! `assign raw` requires rhs0.Query == q && rhs0.OperationName == opn && rhs0.Headers == r.Header
+// (the decoders are handed &raw.Variables / &raw.Extensions and the clock is read: none of them touches these fields)
+//@   stable RawParams.Query RawParams.OperationName RawParams.Headers Request.Header
+//@   at `exec.CreateOperationContext(...` requires arg1 == raw && raw.Query == q && raw.OperationName == opn && raw.Headers == r.Header
 // C09 "answered with the client-error status defined for the negotiated media type": the status of an operation that
 // could not be created is computed from the executor's own error list - not from what presenters or response
 // interceptors made of it (their errors need not carry the error code)
@@ -170,6 +180,11 @@ package transport
 
 // ---------------------------------------------------------------- application/graphql
 //@ func (GRAPHQL).Do [C09,C03,C10,C05]
+// C09: the query is the request body as cleanupBody returned it; this transport has no way to name an operation
+//@   ghost body = ""
+//@   at! `cleanupBody(bodyString)` ghost body = callres0
+//@   stable RawParams.Query RawParams.OperationName RawParams.Headers Request.Header
+//@   at `exec.CreateOperationContext(...` requires arg1 == params && params.Query == body && params.OperationName == "" && params.Headers == r.Header
 // C09 "answered with the client-error status defined for the negotiated media type": the status of an operation that
 // could not be created is computed from the executor's own error list - not from what presenters or response
 // interceptors made of it (their errors need not carry the error code)
